@@ -51,6 +51,7 @@ type replayFile struct {
 	Path      []world.Op   `json:"path"`
 	Violation mc.Violation `json:"violation"`
 	Custom    interface{}  `json:"custom,omitempty"`
+	Tier      string       `json:"tier,omitempty"`
 }
 
 func main() {
@@ -265,13 +266,16 @@ func cmdCheck(args []string) int {
 			continue
 		}
 		n++
-		rf := replayFile{Property: id, Scenario: f.Scenario, MapMode: f.MapMode, Path: f.Path, Violation: f.Viol}
+		rf := replayFile{Property: id, Scenario: f.Scenario, MapMode: f.MapMode, Path: f.Path, Violation: f.Viol, Custom: f.Custom, Tier: *tier}
 		name := filepath.Join(verifRoot, "replays", fmt.Sprintf("%s-%d.json", id, n))
 		_ = os.MkdirAll(filepath.Dir(name), 0o755)
 		b, _ := json.MarshalIndent(rf, "", " ")
 		_ = os.WriteFile(name, append(b, '\n'), 0o644)
 		fmt.Printf("VIOLATION property=%s replay=%s\n", id, name)
 		fmt.Printf("  rule=%s fp=%s ctx=%v\n  %s\n  path: %s\n", f.Viol.Rule, f.Viol.FP, f.Viol.Ctx, f.Viol.Detail, world.PathString(f.Path))
+		if f.Custom != nil {
+			fmt.Printf("  input: %s\n", world.J(f.Custom))
+		}
 	}
 	coverage["known_findings_matched"] = len(printedKnown)
 	if len(harness) > 0 {
@@ -314,7 +318,7 @@ func cmdReplay(args []string) int {
 		return 2
 	}
 	if rf.Custom != nil {
-		return props.ReplayCustom(rf.Property, rf.Custom)
+		return props.ReplayCustom(rf.Property, rf.Violation.FP, rf.Tier, rf.Custom)
 	}
 	world.SetMapMode(rf.MapMode)
 	trace, viol, err := mc.ReplayPath(rf.Scenario, rf.Path)
